@@ -4,7 +4,9 @@
    observation is held back until the next `ut`), `utb` (the UI thread is stepped into a blocking lock acquisition:
    `B` while the model's ETick is not enabled; the `run` step that frees the lock takes the tick step with it) and
    `utw` (where the unblocked UI thread arrived); `obs` also prints g = Snapshot::get_item(k) for k < 8, read from
-   the snapshot's stream (sn_sid) *)
+   the snapshot's stream (sn_sid); `cfg` (Nucleo::update_config with the unchanged configuration) is the model's EConfig
+   when the UI thread is idle: `-` when it is enabled (or a tick is in progress: not called), `BLOCKED` when the worker
+   lock is held - the real call would not return (never generated) *)
 open Nv
 open Util
 let n = n_of_int
@@ -130,6 +132,11 @@ let run_file file tablefile =
           end;
           push "-"
         | ["restart"; c] -> if !pending = None then ev (Nucleo.ERestart (c = "1")); push "-"
+        | ["cfg"] ->
+          (* like the harness: not called while a tick is in progress; with the worker lock held the call blocks *)
+          if not (idle ()) then push "-"
+          else if Nucleo.enabled_config !s then begin ev Nucleo.EConfig; push "-" end
+          else push "BLOCKED"
         | "tick" :: z :: rest when rest = [] || rest = ["as"] ->
           if idle () then begin park_as := (rest = ["as"]); ev (Nucleo.ETickBegin (z = "0")); push "Ybegin" end else push "BUSY"
         | ["ut"] | ["utb"] when !pending <> None || idle () || Nucleo.enabled_tick !s || String.trim evs = "ut" ->
@@ -193,7 +200,7 @@ let run_file file tablefile =
 (* ---- model-guided history generation: `driver nucleo-gen SEED COUNT` ------------------------------ *)
 (* random walks over the ENABLED events of the model (so that the real threads never block where the
    scheduler cannot see them); the pattern pool / text pool are those of harness/hn/src/nucleo_cmd.rs *)
-let nstyles = 16
+let nstyles = 17
 let gen ?tablefile seed count =
   Random.init seed;
   (* with the score table of the harness (pattern pool x text pool) the generator's model state is exactly the one
@@ -285,6 +292,9 @@ let gen ?tablefile seed count =
           incr next_t; next_g := !next_g + 1 + Random.int 3; true end in
     let do_inj () = if idle () then begin ev (Nucleo.ENewInjector (n !next_h)); emit (Printf.sprintf "inj %d" !next_h); incr next_h; true end else false in
     let do_obs () = if idle () then (emit "obs"; true) else false in
+    (* Nucleo::update_config(the unchanged configuration): only where the model says that the call returns (no tick in
+       progress, worker lock free - the pool thread may still be between run.unlocked and the end of its closure) *)
+    let do_cfg () = if Nucleo.enabled_config !s then (ev Nucleo.EConfig; emit "cfg"; true) else false in
     let cur_pat = ref 0 in
     let all_pats = List.init npatterns (fun q -> q) in
     let edit_to p app = ev (Nucleo.EEdit (n p, app, lastneg_ !cur_pat p)); emit (Printf.sprintf "edit %d %d" p (Bool.to_int app)); cur_pat := p in
@@ -342,7 +352,8 @@ let gen ?tablefile seed count =
     else if style <> 4 then (ignore (do_push ()); ignore (do_push ()));
     let steps = 25 + Random.int 50 in
     for _ = 1 to steps do
-      let r = Random.int 100 in
+      (* 100..103: update_config (every style; the shares of the other events among themselves are unchanged) *)
+      let r = Random.int 104 in
       let ok =
         if r < 22 then do_st ()
         else if r < 34 then do_push ()
@@ -355,7 +366,8 @@ let gen ?tablefile seed count =
         else if r < 93 then (match !s.Nucleo.injectors with (h, _) :: _ when Random.bool () -> ev (Nucleo.ECloneInjector (h, n !next_h)); emit (Printf.sprintf "clone %d %d" (i h) !next_h); incr next_h; true | _ -> false)
         else if r < 95 then (match !s.Nucleo.injectors with [] -> false | l -> let (h, _) = List.nth l (Random.int (List.length l)) in
                               if List.exists unfinished !threads then false else begin ev (Nucleo.EDropInjector h); emit (Printf.sprintf "dropinj %d" (i h)); true end)
-        else do_obs () in
+        else if r < 100 then do_obs ()
+        else do_cfg () in
       ignore ok;
       (* style 5: cancel-heavy - as soon as a tick has answered `running`, edit the pattern and tick again
          while the run is still parked somewhere *)
@@ -745,6 +757,37 @@ let gen ?tablefile seed count =
         end
       end
     end;
+    (* style 16: update_config between runs and ticks - the history ends with: the worker settled (state Fresh), then a
+       few rounds of: new published items (sometimes an edit), update_config, a tick (the non-cancelling branch unless
+       there was an edit) whose run must score the items, notify and be picked up as usual; update_config again while
+       the pool thread is between the release of the lock and the end of its closure (run.unlocked / run.before_notify
+       / run.done) and after it; observations.  The call must change nothing: cancel flag, notification flag, snapshot *)
+    if style = 16 then begin
+      settle ();
+      if idle () && not (held_run ()) then begin
+        tick_begin false; settle ();
+        for _ = 1 to 1 + Random.int 3 do
+          if idle () && not (held_run ()) then begin
+            if Random.int 4 = 0 then ignore (do_edit ());
+            if Random.int 5 > 0 then feed ();
+            ignore (do_cfg ());
+            if Random.int 3 = 0 then ignore (do_obs ());
+            tick_begin (Random.int 3 = 0);
+            finish_tick ();
+            if Random.int 3 = 0 then ignore (do_obs ());
+            let f = ref 50 in
+            while !f > 0 && held_run () do
+              decr f; ignore (do_run ());
+              if Random.int 3 = 0 then ignore (do_cfg ())
+            done;
+            if Random.bool () then ignore (do_cfg ());
+            ignore (do_obs ());
+            (* collect the finished run *)
+            if Random.int 3 > 0 then begin tick_begin (Random.bool ()); settle (); ignore (do_obs ()) end
+          end
+        done
+      end
+    end;
     (* wind down to quiescence: finish the tick, the run, the writers; then tick until not running *)
     let fuel = ref 600 in
     let progress () = decr fuel; !fuel > 0 in
@@ -756,6 +799,7 @@ let gen ?tablefile seed count =
     let quiet = ref false in
     while not !quiet && !rounds < 6 do
       incr rounds;
+      if style = 16 && Random.bool () then ignore (do_cfg ());
       ev (Nucleo.ETickBegin false); emit "tick 1";
       let f2 = ref 200 in
       while !f2 > 0 && not (idle ()) do decr f2; if not (do_ut ()) then ignore (do_run ()) done;
